@@ -2,6 +2,8 @@
 package c09
 
 import (
+	"regexp"
+	"strconv"
 	"sort"
 	"unicode"
 	"encoding/json"
@@ -157,6 +159,36 @@ func TestExhaustiveShortStrings(t *testing.T) {
 	rec.Class("exhaustive_rejected", total-accepted)
 }
 
+var countRe = regexp.MustCompile(`\{(\d+)(?:,(\d*))?\}`)
+
+// expansive reports whether the repetition counts of a text multiply to an automaton too large to build here: an edit
+// that turns {3} into {33} under two more repetitions legitimately costs gigabytes, which says nothing about the
+// property (the text is then not submitted; counted).
+func expansive(s string) bool {
+	product := 1
+	for _, m := range countRe.FindAllStringSubmatch(s, -1) {
+		n := 0
+		for _, g := range m[1:] {
+			if len(g) > 4 {
+				return true
+			}
+			if v, err := strconv.Atoi(g); err == nil && v > n {
+				n = v
+			}
+		}
+		if n > 12 {
+			return true
+		}
+		if n > 1 {
+			product *= n
+		}
+		if product > 600 {
+			return true
+		}
+	}
+	return false
+}
+
 func TestCanonicalPrintsAndMutations(t *testing.T) {
 	rec.Rule(rule + ruleMore)
 	edits := []rune(alphabet + ` "'/_zé`)
@@ -194,6 +226,10 @@ func TestCanonicalPrintsAndMutations(t *testing.T) {
 				m = append(append(append(m, rs[:pos]...), rapid.SampledFrom(edits).Draw(t, "c")), rs[pos+1:]...)
 			}
 			ms := string(m)
+			if expansive(ms) {
+				rec.Count("not_submitted_expansive_repetitions", 1)
+				continue
+			}
 			ok, err := checkText(ms)
 			cls := "mutant_rejected"
 			if ok {
